@@ -6,8 +6,8 @@ props = [json.loads(l) for l in open(os.path.join(VERIF, "properties.jsonl"))]
 # id -> (technique, level text, level note, design ref); absent = not yet claimed
 CLAIMED = {
     "C16": ("Lean 4: executable model of the generator (Gen) proved to agree with an independent reading of a definition (classes, order, names, Kafka/struct types, tags, class variables, nullability except primitive arrays) for every definition, under three side conditions each shown necessary by a kernel-checked counterexample + the real generator run on PRNG-generated definitions",
-            "Kio.C16.classes / fields / class_vars / header_rule / nullability_partial for every MsgDef on which generation succeeds; primarr_nullable_witness is the listed known finding C16/H; pinned_agree shows the hypotheses hold on all 666 real (definition, version) pairs. On the code: codegen.generate_schema + build_index run in a scratch tree on 40 (quick) generated definitions per run; generated modules imported in a subprocess and compared with the independent reading and with Gen; instances of the generated classes encoded by the real writer and compared with Spec.enc of Gen's schema; the index must list exactly the generated modules. Partial: coherence of every generated class and byte agreement are checked per run, not proved for an explicit Supported predicate; text emission and pydantic are modelled at descriptor level.",
-            "Lean kernel; same axioms; the supported subset is delimited by harness/defgen.py (documented in DESIGN.md §6.16).", "§6.16"),
+            "Kio.C16.classes / fields / class_vars / header_rule / nullability_partial for every MsgDef on which generation succeeds; primarr_nullable_witness is the listed known finding C16/H; pinned_agree shows the hypotheses hold on all 666 real (definition, version) pairs. On the code: codegen.generate_schema + build_index run in a scratch tree on 40 (quick) generated definitions per run; generated modules imported in a subprocess and compared with the independent reading and with Gen; instances of the generated classes encoded by the real writer and compared with Spec.enc of Gen's schema; the index must list exactly the generated modules. For the explicit syntactic predicate Gen.Supported (Kio/Gen/Supported.lean): Kio.C16.coherent (every generated class is Schema.wf), bytes_follow_spec (encoder bytes = Spec.enc, via C02), defaults, supported_names_distinct are proved for every supported definition; pinned_supported (>= 600 of 666 pinned pairs); every definition the harness draws or hand-crafts (defgen.crafted: per-version crossings, keys 7/18) is classified by the driver. Partial: primitive-array nullability (known finding C16/H); text emission and pydantic are modelled at descriptor level.",
+            "Lean kernel; same axioms; the supported subset is Gen.Supported (DESIGN.md §10.2); harness/defgen.py draws from it.", "§6.16"),
     "C04": ("Lean 4: executable model of the generator (Gen) evaluated by the kernel on the pinned definitions and compared class-by-class, field-by-field with the regenerated tables (16 parallel shards); independent API-table and error-code pins; the real generator re-run on the pinned definitions in a scratch tree",
             "Kio.C04.gen_pinned_eq_shipped (decide +kernel): every walked module equals Gen(pinned definition, version) in names, order, annotations, nullability, tags, defaults, flexibility, key, header and dataclass options; Kio.C04.all_defs_generated, api_table, error_codes. On the code: codegen.generate_schema + build_index run on the 186 pinned definitions outside /repo, output imported in a subprocess and compared with the shipped package; Gen compared with that output.",
             "Lean kernel; same axioms; the pinned definitions are RECONSTRUCTED from the pristine tree (upstream JSON unavailable offline): fidelity to upstream only through the independent API table pin (DESIGN §6.4).", "§6.4"),
@@ -38,9 +38,9 @@ CLAIMED = {
     "C02": ("Lean 4 theorem: writer model = independent declarative statement of the wire format (both directions) + real writer bytes compared with the spec evaluated in Lean",
             "Kio.C02.impl_eq_spec_ok / spec_eq_impl_ok / shipped: for every coherent class and well-typed canonical instance the encoder emits exactly Spec.enc (independent of the dispatch tables/plans/staging), and raises only where there is no encoding; unconditional on the 1629 regenerated classes (side conditions kernel-checked). On the code: entity_writer bytes vs Spec.enc for real instances, plus hand-assembled vectors.",
             "Lean kernel; same axioms; Spec.enc written by me from the protocol guide; general theorem has two side conditions (no tagged nullable entity array, < 2^35 fields) that hold for every shipped class.", "§6.2"),
-    "C05": ("Lean 4 corollary of C01+C02 (canonical encodings) + wire-first differential run",
+    "C05": ("Lean 4 corollary of C01+C02 (canonical encodings), re-encodability theorem for arbitrary accepted input + wire-first differential run",
             "Kio.C05.lossless / decoded_is_wire / idempotent_canonical: for every canonical encoding Spec.enc s w over the full wire domain, decode yields w, consumes exactly the encoding, re-encoding gives the same bytes, and decode∘encode is idempotent. On the code: canonical encodings produced by the Lean spec (ms timestamps, >2^53 ms durations, -0.0, NaN payloads) are decoded and re-encoded by the real code.",
-            "Lean kernel; same axioms; 'anything the decoder returns re-encodes' is proved only for canonical inputs, checked on the code for arbitrary accepted inputs (C10 harness).", "§6.5"),
+            "Lean kernel; same axioms; Kio.C05.reencodable: anything the decoder returns re-encodes (arbitrary accepted input), under taggedDefaultsRefl and 3*len < 2^35, kernel-checked on every shipped class (shipped_reencodable_conditions).", "§6.5"),
     "C06": ("Lean 4 theorem by structural induction (prefix ⇒ underflow through every combinator) + every cut position on real encodings",
             "Kio.C06.prefix_underflow: for every coherent class, well-typed canonical instance and cut k < len, dec (take k) = error underflow. On the code: every cut of generated encodings must raise BufferUnderflow; a third of the cuts are also compared with the model.",
             "Lean kernel; same axioms; that a real source returns short data rather than blocking is the read(n) contract of the source, outside kio.", "§6.6"),
